@@ -221,8 +221,20 @@ class DTCWTInverse(nn.Module):
         mode = mode_to_int(self.mode)
         _, _, h_dim, w_dim = get_dimensions6(
             self.o_dim, self.ri_dim)
+
+        # None, the 0-dim placeholder returned for skipped scales and an empty
+        # tensor all stand for an absent (all zero) input
+        def absent(t):
+            return t is None or t.dim() == 0 or t.numel() == 0
+        highs = [None if absent(s) else s for s in highs]
+        if absent(low):
+            low = None
+
         for j, s in zip(range(J-1, 0, -1), highs[1:][::-1]):
-            if s is not None and s.shape != torch.Size([]):
+            if low is None and s is None:
+                # Nothing to reconstruct from yet
+                continue
+            if s is not None and low is not None:
                 assert s.shape[self.o_dim] == 6, "Inverse transform must " \
                     "have input with 6 orientations"
                 assert len(s.shape) == 6, "Bandpass inputs must have " \
@@ -233,21 +245,25 @@ class DTCWTInverse(nn.Module):
                 r, c = low.shape[2:]
                 r1, c1 = s.shape[h_dim], s.shape[w_dim]
                 if r != r1 * 2:
-                    low = low[:,:,1:-1]
+                    k = (r - r1 * 2) // 2
+                    low = low[:,:,k:-k]
                 if c != c1 * 2:
-                    low = low[:,:,:,1:-1]
+                    k = (c - c1 * 2) // 2
+                    low = low[:,:,:,k:-k]
 
             low = INV_J2PLUS.apply(low, s, self.g0a, self.g1a, self.g0b,
                                    self.g1b, self.o_dim, self.ri_dim, mode)
 
         # Ensure the low and highpass are the right size
-        if highs[0] is not None and highs[0].shape != torch.Size([]):
+        if highs[0] is not None and low is not None:
             r, c = low.shape[2:]
             r1, c1 = highs[0].shape[h_dim], highs[0].shape[w_dim]
             if r != r1 * 2:
-                low = low[:,:,1:-1]
+                k = (r - r1 * 2) // 2
+                low = low[:,:,k:-k]
             if c != c1 * 2:
-                low = low[:,:,:,1:-1]
+                k = (c - c1 * 2) // 2
+                low = low[:,:,:,k:-k]
 
         low = INV_J1.apply(low, highs[0], self.g0o, self.g1o, self.o_dim,
                            self.ri_dim, mode)
